@@ -20,7 +20,7 @@ FINISH = dict(
     rule='sources: NumPy route in layouts (4,4,-1), (8,8,16), (4,8,32), (16,16,4), (64,64,4) at several rates with 0..3 extra header arrays, '
          'SEG-Y thorough; boxes: per axis None / aligned / unaligned / clipped end, by index and by coordinate, plus every refusal class '
          '(all None, empty, inverted, negative, beyond the axis); non-trivial = distinct (source, box, addressing)',
-    assumptions=['regular (structured) sources'],
+    assumptions=['an irregular source stays irregular: trace count = traces present in the box, structured iff the box has no hole'],
     trusted=['zfpy', 'numpy', 'segyio', 'TLC'])
 
 SOURCES = [((12, 13, 150), 16, (4, 4, -1), 2), ((17, 18, 40), 32, (8, 8, 16), 1), ((9, 20, 70), 32, (4, 8, 32), 3), ((33, 18, 9), 32, (16, 16, 4), 0),
@@ -39,6 +39,23 @@ def make_dup_source(d, k, seed):
     p = os.path.join(d, f'dup{k}.sgz')
     writers.segy_to_sgz(sgy, p, 32, (4, 4, -1), header_detection='heuristic')
     return p
+
+
+def make_irregular_source(d, k, seed):
+    ni, nx, nz = 9, 10, 70
+    holes = {(0, 0), (8, 9), (4, 4), (4, 5), (1, 9), (7, 0), (3, 2)}
+    cells = [(i, x) for i in range(ni) for x in range(nx) if (i, x) not in holes]
+    traces = inputs.cube((len(cells), nz), seed + k)
+    hdrs = [{segyio.TraceField.INLINE_3D: 100 + 2 * i, segyio.TraceField.CROSSLINE_3D: -7 + 3 * x, segyio.TraceField.CDP: 7 * t + 1,
+             segyio.TraceField.CDP_X: 1000 + t * t} for t, (i, x) in enumerate(cells)]
+    sgy = os.path.join(d, f'irr{k}.sgy')
+    inputs.write_segy_traces(sgy, traces, 8.0 + 4.0 * np.arange(nz), hdrs)
+    p = os.path.join(d, f'irr{k}.sgz')
+    writers.segy_to_sgz(sgy, p, 32, (4, 4, -1), header_detection='thorough')
+    mask = np.zeros((ni, nx), dtype=bool)
+    for i, x in cells:
+        mask[i, x] = True
+    return p, mask
 
 
 def make_source(d, k, spec, seed):
@@ -182,10 +199,17 @@ def judge(run, S, mode, box, r, ev):
     zexp = src['z'][sl[2]]
     run.check(len(W['z']) == len(zexp) and np.allclose(W['z'], zexp, rtol=0, atol=1e-9), 'C10.sample-axis', dict(case, z_origin_whole_ms=float(zexp[0]).is_integer()),
               W['z'][:3].tolist(), zexp[:3].tolist())
-    ntr = (hi[0] - lo[0]) * (hi[1] - lo[1])
-    run.check(W['ntr'] == ntr and W['structured'], 'C10.tracecount-structured', case, {'ntr': W['ntr'], 'structured': W['structured']}, ntr)
     nx = F['n'][1]
-    rows = np.array([i * nx + x for i in range(lo[0], hi[0]) for x in range(lo[1], hi[1])], dtype=np.int64)
+    box_n = (hi[0] - lo[0]) * (hi[1] - lo[1])
+    if S.get('mask') is None:
+        rows = np.array([i * nx + x for i in range(lo[0], hi[0]) for x in range(lo[1], hi[1])], dtype=np.int64)
+    else:        # irregular source: the traces present in the box, in raster order; the result stays irregular unless the box has no hole
+        ordmap = -np.ones(S['mask'].shape, dtype=np.int64)
+        ordmap[S['mask']] = np.arange(int(S['mask'].sum()))
+        sub = ordmap[lo[0]:hi[0], lo[1]:hi[1]].reshape(-1)
+        rows = sub[sub >= 0]
+    ntr = len(rows)
+    run.check(W['ntr'] == ntr and W['structured'] == (ntr == box_n), 'C10.tracecount-structured', case, {'ntr': W['ntr'], 'structured': W['structured']}, ntr)
     exp_hdr = src['hdr'][rows].copy()
     run.check(W['hdr'].shape == exp_hdr.shape and np.array_equal(W['hdr'], exp_hdr), 'C10.trace-headers', case,
               {'first_bad': (np.argwhere(W['hdr'] != exp_hdr)[:1].tolist() if W['hdr'].shape == exp_hdr.shape else 'shape')}, 'headers of the corresponding source traces')
@@ -201,7 +225,7 @@ def judge(run, S, mode, box, r, ev):
             run.drift(f'{case}: data section differs from SgzTransform!CropCopy ({len(want)} vs {len(r["data"])} bytes, n {ev["n"]})')
         else:
             run.traces_validated += 1
-    return {'T': S['T'], 'lo': lo, 'hi': hi, 'H': r['H'], 'case': case, 'z0_us': S.get('z0_us', 8000)}
+    return {'T': S['T'], 'lo': lo, 'hi': hi, 'H': r['H'], 'case': case, 'z0_us': S.get('z0_us', 8000), 'ntr': ntr}
 
 
 def prepare(run):
@@ -209,10 +233,14 @@ def prepare(run):
     quick = run.tier == 'quick'
     specs = SOURCES[:7] if quick else SOURCES
     S = []
-    for k, spec in enumerate(specs + ['dup']):
+    for k, spec in enumerate(specs + ['dup', 'irr']):
+        mask = None
         if spec == 'dup':
             p = make_dup_source(d, k, run.seed)
             spec = ((9, 10, 70), 32, (4, 4, -1), 'dup')
+        elif spec == 'irr':
+            p, mask = make_irregular_source(d, k, run.seed)
+            spec = ((9, 10, 70), 32, (4, 4, -1), 'irr')
         else:
             p = make_source(d, k, spec, run.seed)
         fc = session.FileCase(p)
@@ -222,7 +250,7 @@ def prepare(run):
         shape, rate, bs, extra = spec[:4]
         dz_us = int(round(1000 * (spec[4] if len(spec) > 4 else 4.0)))
         S.append({'path': p, 'label': f'numpy{shape}r{rate}b{bs}h{extra}', 'F': fc.F, 'snap': _snapshot(p), 'data': raw[8192:8192 + H['data_blocks'] * 4096],
-                  'T': c03.truth(3, shape, fc.F['b'], rate, shape[0] * shape[1], (100, 2), (-7, 3), 8, dz_us, source_format=20 if extra != 'dup' else 0)})
+                  'T': c03.truth(3, shape, fc.F['b'], rate, shape[0] * shape[1], (100, 2), (-7, 3), 8, dz_us, source_format=20 if extra not in ('dup', 'irr') else 0), 'mask': mask})
     # a source that already uses the float64 sample-axis fields: a crop of the 1001 us source starting between whole milliseconds
     from seismic_zfp.cropping import SgzCropper
     frac = [x for x in S if '(17, 18, 40)' in x['label'] and 'h1' in x['label'] and x['T']['dz_us'] == 125]
@@ -266,7 +294,7 @@ def run(run):
     for c in conf:
         T = dict(c['T'])
         n = [c['hi'][a] - c['lo'][a] for a in range(3)]
-        T['F'] = dict(T['F'], n=n, ntr=n[0] * n[1])
+        T['F'] = dict(T['F'], n=n, ntr=c['ntr'])
         T['il0'] = T['il0'] + c['lo'][0] * T['ilstep']
         T['xl0'] = T['xl0'] + c['lo'][1] * T['xlstep']
         T['z0'] = (c['z0_us'] + c['lo'][2] * T['dz_us']) // 1000        # the integer word holds whole milliseconds
@@ -296,7 +324,7 @@ def replay(run, rep):
     if cc and rep['clause'] == 'C10.conformant':
         T = dict(cc['T'])
         n = [cc['hi'][a] - cc['lo'][a] for a in range(3)]
-        T['F'] = dict(T['F'], n=n, ntr=n[0] * n[1])
+        T['F'] = dict(T['F'], n=n, ntr=cc['ntr'])
         T['il0'] += cc['lo'][0] * T['ilstep']
         T['xl0'] += cc['lo'][1] * T['xlstep']
         T['z0'] = (cc['z0_us'] + cc['lo'][2] * T['dz_us']) // 1000
